@@ -136,6 +136,61 @@ func runC02(c *Ctx) {
 			}
 			c.check(atomicOp, "R02.1", construct, c.ipos(u.At), "atomic", "the id counter is accessed non-atomically by concurrently running callers: two calls can obtain the same id and receive each other's response")
 		}
+		// the counter must live in the one client object shared by all proxy functions: a pointer to
+		// a client that is a local *copy* (value receiver, `cl := *c`) gives every copy its own counter
+		if r.TClient != nil {
+			for _, fn := range p.Funcs {
+				if pkgOf(fn) != p.Root.Pkg {
+					continue
+				}
+				allInstrsRaw(fn, func(in ssa.Instruction) {
+					st, ok := in.(*ssa.Store)
+					if !ok {
+						return
+					}
+					pt, ok := st.Val.Type().Underlying().(*types.Pointer)
+					if !ok || pt.Elem() != types.Type(r.TClient) {
+						return
+					}
+					if _, isField := st.Addr.(*ssa.FieldAddr); !isField {
+						return
+					}
+					for _, o := range c.origins(st.Val) {
+						al, ok := o.Root.(*ssa.Alloc)
+						if !ok || len(o.Fields) != 0 {
+							continue
+						}
+						for _, ref := range *al.Referrers() {
+							if s2, ok := ref.(*ssa.Store); ok && s2.Addr == ssa.Value(al) {
+								if k, isK := s2.Val.(*ssa.Const); isK && k.Value == nil {
+									continue
+								}
+								// a copy of an existing client: the value comes from a by-value parameter
+								// (value receiver) or from dereferencing a client pointer; a value built by
+								// a constructor helper and stored once is a construction, not a copy
+								isCopy := false
+								for _, o2 := range []apath{{Root: s2.Val}} {
+									switch x := o2.Root.(type) {
+									case *ssa.Parameter:
+										if x.Type() == types.Type(r.TClient) {
+											isCopy = true
+										}
+									case *ssa.UnOp:
+										if x.Op == token.MUL && x.Type() == types.Type(r.TClient) {
+											isCopy = true
+										}
+									}
+								}
+								if !isCopy {
+									continue
+								}
+								c.bad("R02.1", fmt.Sprintf("%s: client object behind a proxy function", fname(fn)), c.ipos(st), "a pointer to a copy of the client is kept (value receiver or struct copy): each copy has its own id counter, so calls of different methods in flight together carry the same id and one takes the other's response")
+							}
+						}
+					}
+				})
+			}
+		}
 		// the request literal's id in the client call path (the call function, its helpers and closures)
 		nid := 0
 		isMint := func(v ssa.Value) bool {
@@ -209,6 +264,83 @@ func runC02(c *Ctx) {
 
 	// ---- R02.7
 	c.freshDecodeTarget("R02.7")
+
+	// ---- R02.8
+	c.rule("R02.8", "the argument list of the reflective handler call is allocated per invocation (never memory shared between calls)")
+	c.freshArgList("R02.8")
+}
+
+// freshArgList: the []reflect.Value handed to reflect's Call is built from memory allocated during this
+// dispatch: a make in the dispatcher's cone, or appends onto nil / such a make. A slice that lives longer
+// than one call (a field of the method table, a package variable) — also as the base of an append, which
+// writes into its spare capacity — makes concurrent calls of one method overwrite each other's arguments.
+func (c *Ctx) freshArgList(rule string) {
+	p, r := c.P, c.R
+	if r.FnDisp == nil {
+		c.und(rule, "dispatcher", "-", "not resolved")
+		return
+	}
+	n := 0
+	p.coneInstrs(r.FnDisp, func(in ssa.Instruction) {
+		ci, ok := in.(*ssa.Call)
+		if !ok {
+			return
+		}
+		nm := calleeName(ci)
+		if nm != "(reflect.Value).Call" && nm != "(reflect.Value).CallSlice" {
+			return
+		}
+		n++
+		construct := fmt.Sprintf("%s: argument list of the handler call", fname(in.Parent()))
+		ok2, why := c.freshSlice(ci.Common().Args[1], 0)
+		c.check(ok2, rule, construct, c.ipos(ci), "allocated during this dispatch", why+": concurrent calls of the same method overwrite each other's context and arguments, so a reply is computed from another call's parameters")
+	})
+	if n == 0 {
+		c.und(rule, "reflective handler call", "-", "none found in the dispatcher's cone")
+	}
+}
+
+func (c *Ctx) freshSlice(v ssa.Value, depth int) (bool, string) {
+	if depth > 8 {
+		return false, "origin chain of the argument list too deep"
+	}
+	os := c.origins(v)
+	if len(os) == 0 {
+		return false, "argument list of unknown origin"
+	}
+	for _, o := range os {
+		if len(o.Fields) != 0 {
+			return false, "the argument list (or the slice it is appended to) is read from field " + o.Fields[len(o.Fields)-1].Name()
+		}
+		switch x := o.Root.(type) {
+		case *ssa.MakeSlice:
+			if !c.P.inCone(c.R.FnDisp, x) {
+				return false, "the argument list is made outside the dispatch"
+			}
+		case *ssa.Const:
+			if !x.IsNil() {
+				return false, "unexpected constant"
+			}
+		case *ssa.Slice:
+			if al, ok := x.X.(*ssa.Alloc); ok && c.P.inCone(c.R.FnDisp, al) {
+				continue // slice of a local array (varargs literal)
+			}
+			if ok, why := c.freshSlice(x.X, depth+1); !ok {
+				return false, why
+			}
+		case *ssa.Call:
+			if b, ok := x.Common().Value.(*ssa.Builtin); ok && b.Name() == "append" {
+				if ok, why := c.freshSlice(x.Common().Args[0], depth+1); !ok {
+					return false, why
+				}
+				continue
+			}
+			return false, "the argument list is produced by " + calleeName(x)
+		default:
+			return false, fmt.Sprintf("the argument list originates from %T, not from an allocation made for this call", o.Root)
+		}
+	}
+	return true, ""
 }
 
 // frameParamOf: the parameter of fn whose type is the frame struct.
